@@ -1461,7 +1461,10 @@ func RunWhere(opts GlobalOptions) error {
 		return err
 	}
 	if opts.StartDir != "" {
-		start = opts.StartDir
+		start, err = filepath.Abs(opts.StartDir)
+		if err != nil {
+			return err
+		}
 	}
 	ergoDir, err := resolveErgoDir(start)
 	if err != nil {
